@@ -71,6 +71,8 @@ def _deferred_fixture():
         "vt_pkg/__init__.py": "from .base import Animal\n",
         "vt_pkg/base.py": "class Animal: ...\n",
         "vt_pkg/cats.py": "from .base import Animal\nclass Cat(Animal): ...\n",
+        "vt_pkg/deep/__init__.py": "",
+        "vt_pkg/deep/frame.py": "from ..base import Animal\nclass Frame(Animal): ...\n",
         "vt_moda/__init__.py": "class Thing: ...\n",
         "vt_modb/__init__.py": "class Thing: ...\n",
     }
@@ -93,18 +95,20 @@ def deferred_terms():
     if _DEFERRED is None:
         from ovld.types import Deferred
 
-        refs = ["vt_pkg.base.Animal", "vt_pkg.Animal", "vt_moda.Thing", "vt_modb.Thing"]
+        refs = ["vt_pkg.base.Animal", "vt_pkg.Animal", "vt_moda.Thing", "vt_modb.Thing", "vt_pkg.deep.frame.Frame"]
         ts = [Deferred[r] for r in refs]
         import vt_moda
         import vt_modb
         import vt_pkg.base
         import vt_pkg.cats
+        import vt_pkg.deep.frame
 
-        targets = [vt_pkg.base.Animal, vt_pkg.base.Animal, vt_moda.Thing, vt_modb.Thing]
+        targets = [vt_pkg.base.Animal, vt_pkg.base.Animal, vt_moda.Thing, vt_modb.Thing, vt_pkg.deep.frame.Frame]
         for t, c in zip(ts, targets):
             SPEC[id(t)] = ("Deferred", (c,))
             _KEEP.append(t)
-        _DEFERRED = (ts, [vt_pkg.base.Animal, vt_pkg.cats.Cat, vt_moda.Thing, vt_modb.Thing])
+        # Frame lives two module levels below the package (pandas.core.frame.DataFrame layout)
+        _DEFERRED = (ts, [vt_pkg.base.Animal, vt_pkg.cats.Cat, vt_moda.Thing, vt_modb.Thing, vt_pkg.deep.frame.Frame])
     return _DEFERRED
 
 
